@@ -60,7 +60,7 @@ var HostileKeys = []string{"a", "b", "c", "d", "", "a/b", "m~n", "~", "/", "~1",
 var PlainKeys = []string{"a", "b", "c", "d", "e", "f", "k", "0", "1", "zz"}
 var MergeKeys = []string{"a", "b", "c", "d", "x<y", "", "a~1b", "~0", `b\s`, `q"r`, "\x01\x7f", "sensor_reading_01_celsius", "sensor_reading_02_celsius"}
 
-var HostileStrings = []string{"", "s", "x<y>&z", "\xe2\x80\xa8\xe2\x80\xa9", "\u2039a\u203a\u203c\u2027\u202a\u2030", "é😀", `q"r\`, "\b\f\n\r\t\x01", "A", "/", "~", "null", "0", "a b", "\u007f", "𝄞", `\u003c`, `x\\u0026`, "[", "{\"", `a\"b`, `\\"`, `["\"]`}
+var HostileStrings = []string{"", "s", "x<y>&z", "\xe2\x80\xa8\xe2\x80\xa9", "\u2039a\u203a\u203c\u2027\u202a\u2030", "é😀", `q"r\`, "\b\f\n\r\t\x01", "A", "/", "~", "null", "0", "a b", "\u007f", "𝄞", `\u003c`, `x\\u0026`, "[", "{\"", `a\"b`, `\\"`, `["\"]`, "a\ufffdb/", "\ufffd", `\`, `\\`}
 var PlainStrings = []string{"", "s", "A", "hello world", "null", "0", "é", "😀", "a b c"}
 
 var OddNumbers = []string{"0", "1", "-1", "-0", "1.0", "1e400", "1E+2", "12345678901234567890123", "0.1e-7", "2.50", "1e0", "100", "7", "0.0", "-1.5e-3", "9007199254740993", "1.5e10", "1.5e1", "2.25E-20", "2.25E-2", "6.022e230", "6.022e23", "1.50e1"}
@@ -101,6 +101,7 @@ func SpellString(r *rand.Rand, s string, spell int, lone bool) string {
 	}
 	var sb strings.Builder
 	sb.WriteByte('"')
+	valid := utf8.ValidString(s) // (then a U+FFFD in s is the character itself, not a decoding artefact)
 	for _, c := range s {
 		how := r.Intn(10)
 		switch {
@@ -122,7 +123,7 @@ func SpellString(r *rand.Rand, s string, spell int, lone bool) string {
 			}
 		case c == '/' && how < 3:
 			sb.WriteString(`\/`)
-		case how == 0 && c < 0x10000 && c != utf8.RuneError:
+		case how == 0 && c < 0x10000 && (c != utf8.RuneError || valid):
 			sb.WriteString(U(fmt.Sprintf("%04x", c)))
 		case how == 1 && c >= 0x10000:
 			c2 := c - 0x10000
